@@ -237,7 +237,16 @@ Inductive info_op :=
 Inductive seq_obs :=
 | SPrep (d : list Z) (m : option (list bool))
 | SAcc (mask_ok : bool)
+| SRefused                 (* FinamMetaDataError: the operation is refused, the info stays as it was *)
 | SNothing.
+
+(** info.py 91-102: the mask setter refuses ("Mask in Info not compatible with given grid") an
+    explicit mask whose shape is not the data shape of the grid; everything else is stored *)
+Definition mask_fits (sh : shape) (m : mspec) : bool :=
+  match m with
+  | MBits a => nat_list_eqb sh (ashape a)
+  | _ => true
+  end.
 
 Definition info_step (st : info_state) (op : info_op) : info_state * seq_obs :=
   match op with
@@ -245,10 +254,16 @@ Definition info_step (st : info_state) (op : info_op) : info_state * seq_obs :=
       let r := prepare_mask (i_shape st) (i_order st) form vals 0%Z None (i_mask st) in
       (st, SPrep (fst r) (snd r))
   | ISetGrid o g => (mkinfo (i_shape st) o g (i_mask st), SNothing)
-  | ISetMask m => (mkinfo (i_shape st) (i_order st) (i_grid st) m, SNothing)
+  | ISetMask m =>
+      if mask_fits (i_shape st) m
+      then (mkinfo (i_shape st) (i_order st) (i_grid st) m, SNothing)
+      else (st, SRefused)                             (* raised BEFORE anything is stored *)
   | ICopyWith og om =>
       let '(o, g) := match og with Some p => p | None => (i_order st, i_grid st) end in
-      (mkinfo (i_shape st) o g (match om with Some m => m | None => i_mask st end), SNothing)
+      let m' := match om with Some m => m | None => i_mask st end in
+      if mask_fits (i_shape st) m'
+      then (mkinfo (i_shape st) o g m', SNothing)
+      else (st, SRefused)                             (* the half-built copy is dropped *)
   | ICopy => (st, SNothing)
   | IAccepts other down =>
       (st, SAcc (accepts_mask (i_mask st) (Some (i_grid st)) other (Some (i_grid st)) down))
@@ -352,6 +367,7 @@ Definition seq_obs_eqb (a b : seq_obs) : bool :=
   | SPrep d1 m1, SPrep d2 m2 => list_eqb Z.eqb d1 d2 && obits_eqb m1 m2
   | SAcc x, SAcc y => Bool.eqb x y
   | SNothing, SNothing => true
+  | SRefused, SRefused => true
   | _, _ => false
   end.
 
